@@ -1,7 +1,7 @@
 ---- MODULE ThresholdBLSMC ----
 (* Exhaustive check of the algebra on every case of the machine for NMin <= n <= NMax, 2 <= t <= min(n, TMax):
-   every subset of at least t shares, every single substitution, every polynomial over GF(P), every pair of
-   distinct message hashes, every value of a fresh key.  The states of this model are the cases. *)
+   every subset of at least t shares, every single substitution, every polynomial over GF(P), every ratio of
+   two distinct message hashes, every value of a fresh key.  The states of this model are the cases. *)
 EXTENDS ThresholdBLS
 CONSTANTS NMin, NMax, TMax
 ASSUME P > NMax + 1
